@@ -71,7 +71,12 @@ func (b *buffer) get(v wireType) {
 	if b.err = v.UnmarshalBinary(b.data[b.i:]); b.err != nil {
 		return
 	}
-	b.i += v.width()
+	n := v.width()
+	if n > len(b.data)-b.i {
+		b.err = ErrMissingData
+		return
+	}
+	b.i += n
 }
 
 func (b *buffer) atEnd() bool {
